@@ -1,1 +1,5 @@
-import Asn1
+import Proofs.Digits
+import Proofs.TagLen
+import Proofs.Parse
+import Proofs.Prefix
+import Proofs.Fuel
